@@ -41,15 +41,18 @@ type jCase struct {
 	HM       [7]spec.HM   `json:"hm"`
 	Doors    [4]uint8     `json:"doors"`
 	DoorsNil bool         `json:"doors_nil,omitempty"`
-	Week     [7]bool      `json:"week"`
-	WeekMode int          `json:"week_mode,omitempty"` // 0 all keys, 1 only true keys, 2 nil
-	IP       [4]byte      `json:"ip"`
-	Port     uint16       `json:"port,omitempty"`
-	CardPIN  uint32       `json:"card_pin,omitempty"`
-	MAC      [6]byte      `json:"mac"`
-	N        [4]uint8     `json:"n"`
-	InUTC    bool         `json:"in_utc,omitempty"` // DateTime: the value is held in UTC although the process zone is another one
-	Later    bool         `json:"later,omitempty"`  // DateTime: for a civil time that occurs twice take the later occurrence
+	// DoorsMissing: bit i set = the card's door map has no entry for door i+1 (a card that grants two doors only); such a door
+	// reads as 'no access' (0) after the round trip, and marshalling does not complete the caller's map
+	DoorsMissing uint8    `json:"doors_missing,omitempty"`
+	Week         [7]bool  `json:"week"`
+	WeekMode     int      `json:"week_mode,omitempty"` // 0 all keys, 1 only true keys, 2 nil
+	IP           [4]byte  `json:"ip"`
+	Port         uint16   `json:"port,omitempty"`
+	CardPIN      uint32   `json:"card_pin,omitempty"`
+	MAC          [6]byte  `json:"mac"`
+	N            [4]uint8 `json:"n"`
+	InUTC        bool     `json:"in_utc,omitempty"` // DateTime: the value is held in UTC although the process zone is another one
+	Later        bool     `json:"later,omitempty"`  // DateTime: for a civil time that occurs twice take the later occurrence
 	// Date values (also inside cards, profiles, tasks): 0 = made by ToDate (midnight in the process zone); otherwise the public
 	// conversion types.Date(t) of a time of day (Clock) in ANOTHER location (1 UTC, 2 UTC+14, 3 UTC-12, 4 Pacific/Kiritimati,
 	// 5 America/Anchorage, 6 the process zone itself): the date is the calendar day of t where t is (Date.Equals compares that)
@@ -283,7 +286,15 @@ func decide(c jCase) *rp.Fail {
 		case "Card":
 			card := types.Card{CardNumber: uint32(c.U), From: c.date1(), To: c.date2(), PIN: types.PIN(c.CardPIN)}
 			if !c.DoorsNil {
-				card.Doors = map[uint8]uint8{1: c.Doors[0], 2: c.Doors[1], 3: c.Doors[2], 4: c.Doors[3]}
+				card.Doors = map[uint8]uint8{}
+				for i := 0; i < 4; i++ {
+					if c.DoorsMissing&(1<<uint(i)) == 0 {
+						card.Doors[uint8(i+1)] = c.Doors[i]
+					}
+				}
+				if c.DoorsMissing&0x0f != 0 {
+					ev.Class("card/door-map-without-all-four-doors", 1)
+				}
 			}
 			var got types.Card
 			js, f := roundtrip("types.Card", card, &got)
@@ -296,6 +307,12 @@ func decide(c jCase) *rp.Fail {
 			want := api.CardRec(card)
 			if c.DoorsNil {
 				want["door1"], want["door2"], want["door3"], want["door4"] = "0", "0", "0", "0"
+			} else {
+				for i := 0; i < 4; i++ {
+					if c.DoorsMissing&(1<<uint(i)) != 0 {
+						want[fmt.Sprintf("door%d", i+1)] = "0"
+					}
+				}
 			}
 			if g := api.CardRec(got); g.String() != want.String() {
 				fail = rp.Failf("types.Card/roundtrip", "%s decoded as %v, want %v", js, g, want)
@@ -728,6 +745,9 @@ func genCase(t *rapid.T) jCase {
 		c.Doors[i] = gen.U8(t, "door")
 	}
 	c.DoorsNil = rapid.IntRange(0, 5).Draw(t, "doors.nil") == 0
+	if rapid.IntRange(0, 2).Draw(t, "doors.partial") == 0 {
+		c.DoorsMissing = uint8(rapid.IntRange(1, 15).Draw(t, "doors.missing"))
+	}
 	for i := range c.Week {
 		c.Week[i] = rapid.Bool().Draw(t, "weekday")
 	}
